@@ -119,6 +119,24 @@ func runOpaque(c *core.Ctx) {
 				}
 			}
 			c.Check(ok, construct, al.Pos(), "stored from the received message", "the opaque value's "+strings.Join(x.field, ".")+" is not taken from the received "+x.want+" (got "+setStr(got)+"): an unknowing process would forward something else than it received")
+			// round 12: the details are kept WHOLE. Where the fallback stores the received struct member by member
+			// instead of copying it, every member of EncodedErrorDetails (the members of the type mark included) must
+			// come from the same member of the received details - a member left out is forwarded empty.
+			if ok && x.field[len(x.field)-1] == "details" {
+				for _, sub := range [][]string{{"OriginalTypeName"}, {"ErrorTypeMark", "FamilyName"}, {"ErrorTypeMark", "Extension"}, {"ReportablePayload"}, {"FullDetails"}} {
+					path := append(append([]string{}, x.field...), sub...)
+					w := x.want + "." + strings.Join(sub, ".")
+					gs := recvSubs(e, al, path)
+					okSub := false
+					for k := range gs {
+						if k == x.want || k == w || strings.HasPrefix(k, w+".") || strings.HasPrefix(w, k+".") {
+							okSub = true
+						}
+					}
+					c.Check(okSub, construct+" ("+strings.Join(sub, ".")+")", al.Pos(), "every member of the received details is kept",
+						"the opaque value's "+strings.Join(path, ".")+" is not taken from the received "+w+" (got "+setStr(gs)+"): an unknowing process forwards this member empty - type name, mark extension (the domain), safe details or payload of the unknown error are lost on the next hop")
+				}
+			}
 			// verbatim: for the scalar/string/struct slots nothing but the received field may contribute - no
 			// constant substituted on some path, no other field mixed in ("keep what was received")
 			if ok && x.field[len(x.field)-1] != "cause" && x.field[len(x.field)-1] != "causes" {
